@@ -64,12 +64,15 @@ pub struct AutonomousSearchStatistics {
     pub average_size_of_heap: MovingAverageStub, pub num_assigned_predicates_encountered: usize,
 }
 pub struct Solution { pub x: u8 }
+pub uninterp spec fn pred_domain_of(p: Predicate) -> DomainId;
 impl Solution {
-    #[verifier::external_body] pub fn contains_domain_id(&self, d: DomainId) -> bool { unimplemented!() }
-    #[verifier::external_body] pub fn is_predicate_satisfied(&self, p: Predicate) -> bool { unimplemented!() }
+    // proved in unit `solution`: exactly the variables the snapshot knows; a predicate over an unknown variable cannot be evaluated
+    pub uninterp spec fn knows(&self, d: DomainId) -> bool;
+    #[verifier::external_body] pub fn contains_domain_id(&self, d: DomainId) -> (r: bool) ensures r == self.knows(d) { unimplemented!() }
+    #[verifier::external_body] pub fn is_predicate_satisfied(&self, p: Predicate) -> bool requires self.knows(pred_domain_of(p)) { unimplemented!() }
 }
 impl Predicate {
-    #[verifier::external_body] pub fn get_domain(&self) -> DomainId { unimplemented!() }
+    #[verifier::external_body] pub fn get_domain(&self) -> (r: DomainId) ensures r == pred_domain_of(*self) { unimplemented!() }
 }
 pub trait Brancher {
     // what the backup promises (C18 for the selectors): its decision is unassigned; None only if everything is assigned
